@@ -614,6 +614,11 @@ def rule_SN6(ctx, rep):
         rep.bad('SN6', fn, loops[0] if loops else fn.qualname, 'the pairwise pre-pass of min_max does not move the smaller element of each pair (i, n-1-i), i < n//2, to position i', fn.node)
     for call, kind in ((lo_call[0], 'min'), (hi_call[0], 'max')):
         a0 = call.args[0]
+        if isinstance(a0, ast.Name):
+            # a named half (`lower = x[:n - h]`): read through its single definition
+            ds_ = [d for d in astq.reaching_definitions(fn.node, a0.id, call, pm) if d[2] == 'assign' and d[1] is not None]
+            if len(ds_) == 1 and len(astq.reaching_definitions(fn.node, a0.id, call, pm)) == 1:
+                a0 = ds_[0][1]
         good, why = False, 'the argument is not a slice of the pre-sorted list'
         if isinstance(a0, ast.Subscript) and isinstance(a0.slice, ast.Slice) and a0.slice.step is None:
             from .rules_ss import _xp_arith as _xa2
@@ -756,6 +761,7 @@ def rule_IP1(ctx, rep):
                 # in this block or an enclosing one of the same loop iteration
                 fresh = False
                 x_ = s
+                crossed = False          # left the loop iteration of the statement: element stores further out are other iterations'
                 while x_ is not None and x_ is not fn.node and not fresh:
                     p_ = pm.get(id(x_))
                     if p_ is None:
@@ -763,10 +769,24 @@ def rule_IP1(ctx, rep):
                     for b_ in astq._blocks(p_):
                         if any(x_ is y for y in b_):
                             k_ = next(i_ for i_, y in enumerate(b_) if y is x_)
-                            if any(isinstance(y, ast.Assign) and any(norm(t_) == norm(s.target) for t_ in y.targets) for y in b_[:k_]):
+                            if not crossed and any(isinstance(y, ast.Assign) and any(norm(t_) == norm(s.target) for t_ in y.targets) for y in b_[:k_]):
                                 fresh = True
+                            # an earlier loop over all positions that stores a new value at each of them (x[i] = a * y[i] for every i)
+                            for y in b_[:k_]:
+                                if isinstance(y, ast.For) and not y.orelse:
+                                    lv = None
+                                    it = y.iter
+                                    if isinstance(y.target, ast.Name) and isinstance(it, ast.Call) and isinstance(it.func, ast.Name) and it.func.id == 'range' and len(it.args) == 1:
+                                        a0 = _xa_len(fn, it.args[0], y, pm)
+                                        lv = y.target.id if a0 == f'len({nm})' else None
+                                    elif isinstance(y.target, ast.Tuple) and len(y.target.elts) == 2 and isinstance(y.target.elts[0], ast.Name) and isinstance(it, ast.Call) \
+                                            and isinstance(it.func, ast.Name) and it.func.id == 'enumerate' and len(it.args) == 1 and norm(it.args[0]) == nm:
+                                        lv = y.target.elts[0].id
+                                    if lv is not None and any(isinstance(z, ast.Assign) and any(isinstance(t_, ast.Subscript) and norm(t_.value) == nm and norm(t_.slice) == lv
+                                                                                                for t_ in z.targets) for z in y.body):
+                                        fresh = True
                     if isinstance(p_, (ast.For, ast.While, ast.AsyncFor)):
-                        break
+                        crossed = True
                     x_ = p_
                 if fresh:
                     continue
@@ -809,6 +829,15 @@ def rule_IP1(ctx, rep):
             else:
                 rep.ok('IP1', fn, s, 'in-place update of a value the coroutine created itself')
     return n
+
+
+def _xa_len(fn, e, use, pm):
+    """text of a length expression with a temporary read through (`n = len(x)`)"""
+    if isinstance(e, ast.Name):
+        ds = [d for d in astq.reaching_definitions(fn.node, e.id, use, pm) if d[2] == 'assign' and d[1] is not None]
+        if len(ds) == 1:
+            return norm(ds[0][1])
+    return norm(e)
 
 
 IP1_FRESH_SLICE = {
